@@ -63,6 +63,27 @@ pub struct BCall {
     pub entry: Entry,
     pub x: B,
     pub y: B,
+    /// when present, the library is handed two views of this one buffer instead of `x` and `y` (which then
+    /// are copies of the views and feed the oracles): sequences that share memory
+    #[serde(default)]
+    pub shared: Option<Shared>,
+}
+
+#[derive(Serialize, Deserialize, Debug, Clone)]
+pub struct Shared {
+    pub buf: B,
+    pub x: (usize, usize),
+    pub y: (usize, usize),
+}
+
+impl BCall {
+    /// the slices handed to the library
+    pub fn views(&self) -> (&[u8], &[u8]) {
+        match &self.shared {
+            Some(s) => (&s.buf[s.x.0..s.x.1], &s.buf[s.y.0..s.y.1]),
+            None => (&self.x, &self.y),
+        }
+    }
 }
 
 #[derive(Serialize, Deserialize, Debug, Clone)]
@@ -91,8 +112,9 @@ struct Outcome {
 }
 
 fn run_call(al: &mut Aligner<TableFn>, c: &BCall, sp: &ScoreSpec, k: usize) -> Outcome {
-    let (x, y): (&[u8], &[u8]) = (&c.x, &c.y);
-    let all = sparse::find_kmer_matches(x, y, k);
+    let (x, y) = c.views();
+    // (the k-mer matches are computed from the owned copies: what find_kmer_matches does with shared memory is C19's business)
+    let all = sparse::find_kmer_matches(&c.x, &c.y, k);
     match &c.entry {
         Entry::Custom => Outcome { a: al.custom(x, y), full_band: all.is_empty(), n_matches: all.len() },
         Entry::Global => Outcome { a: al.global(x, y), full_band: all.is_empty(), n_matches: all.len() },
@@ -155,10 +177,14 @@ fn unfiltered(al: &mut Aligner<TableFn>, c: &BCall, sp: &ScoreSpec, k: usize, wr
     }
     let raw = match c.entry {
         Entry::SemiglobalPrehash => {
-            let h = sparse::hash_kmers(&c.y, k);
-            al.custom_with_prehash(&c.x, &c.y, &h)
+            let (x, y) = c.views();
+            let h = sparse::hash_kmers(y, k);
+            al.custom_with_prehash(x, y, &h)
         }
-        _ => al.custom(&c.x, &c.y),
+        _ => {
+            let (x, y) = c.views();
+            al.custom(x, y)
+        }
     };
     {
         let s = al.get_mut_scoring();
@@ -284,6 +310,11 @@ pub fn check(c: &Case) -> R {
             return Err(Stop::Skip(sig));
         }
     }
+    for call in c.history.iter().chain(std::iter::once(&c.call)) {
+        if let Some(s) = &call.shared {
+            ensure!(s.x.0 <= s.x.1 && s.x.1 <= s.buf.len() && s.y.0 <= s.y.1 && s.y.1 <= s.buf.len() && s.buf[s.x.0..s.x.1] == call.x[..] && s.buf[s.y.0..s.y.1] == call.y[..], "harness: shared buffer views {:?} do not equal x / y", s);
+        }
+    }
     let sp = &c.spec;
     let mut fresh = new_aligner(c);
     let r = check_call("fresh aligner:", &mut fresh, &c.call, sp, c.k, c.w)?;
@@ -321,6 +352,12 @@ pub fn check(c: &Case) -> R {
     p.add_if(c.with_match_scores && sp.uniform().is_some(), "match_scores: Some");
     p.add_if(m == 0 || n == 0, "empty input");
     p.add_if(m < c.k || n < c.k, "sequence shorter than k");
+    if let Some(s) = &c.call.shared {
+        let (a, b) = (s.x, s.y);
+        p.add_if(a.0 == b.0 && m != n && m > 0 && n > 0, "same start address, different lengths");
+        p.add_if(a == b && m > 0, "the very same slice twice");
+        p.add_if(a.0 < b.1 && b.0 < a.1 && a != b, "overlapping views");
+    }
     Ok(p)
 }
 
@@ -336,7 +373,7 @@ fn mask() -> BoxedStrategy<Vec<bool>> {
     .boxed()
 }
 
-fn entry() -> BoxedStrategy<Entry> {
+pub fn entry() -> BoxedStrategy<Entry> {
     prop_oneof![
         4 => Just(Entry::Custom),
         2 => Just(Entry::CustomPrehash),
@@ -352,7 +389,7 @@ fn entry() -> BoxedStrategy<Entry> {
 }
 
 fn bcall(sigma: u8, max: usize) -> BoxedStrategy<BCall> {
-    (entry(), c01::seq_pair(sigma, max)).prop_map(|(entry, (x, y))| BCall { entry, x: B(x), y: B(y) }).boxed()
+    (entry(), c01::seq_pair(sigma, max)).prop_map(|(entry, (x, y))| BCall { entry, x: B(x), y: B(y), shared: None }).boxed()
 }
 
 fn strat_sized(max: usize) -> BoxedStrategy<Case> {
@@ -424,7 +461,17 @@ pub fn check_budget(c: &BudgetCase) -> R {
         let opt = opt_reference(&x, &y, &sp, sp.mode_clips(c.mode));
         ensure!(opt == a.score as i64, "m={} n={} {:?}: full band, reported {} but optimum {}", c.m, c.n, c.mode, a.score, opt);
     }
+    // the same aligner object afterwards: a refused (or just-accepted) huge call must not leave anything behind
+    // that changes later results (every entry point, pairs with and without a shared 4-mer)
+    for (fx, fy) in [(&b"abbabbab"[..], &b"abbabaab"[..]), (&b"aabab"[..], &b"bbbab"[..]), (&b"abababbbab"[..], &b"bab"[..])] {
+        for entry in [Entry::Custom, Entry::CustomPrehash, Entry::Matches { mask: vec![] }, Entry::Local, Entry::Semiglobal, Entry::Global, Entry::Custom] {
+            let call = BCall { entry, x: B(fx.to_vec()), y: B(fy.to_vec()), shared: None };
+            let what = format!("after a {} {:?} call of {} x {} symbols on the same aligner:", if sentinel { "refused" } else { "large" }, c.mode, c.m, c.n);
+            check_call(&what, &mut al, &call, &sp, 4, 2)?;
+        }
+    }
     Ok(Pass::new(true)
+        .class_if(sentinel, "aligner reused after a refused call")
         .class_if(cells == 5_000_000, "exactly 5,000,000 cells: aligned")
         .class_if(cells < 5_000_000, "just below the budget: aligned")
         .class_if(cells > 10_000_000, "above 10,000,000 cells: sentinel")
@@ -470,7 +517,7 @@ fn enumerate_small(t: Tier) -> Box<dyn Iterator<Item = Case>> {
             let (x, y) = (strings[pair / n].clone(), strings[pair % n].clone());
             let entries: Vec<Entry> = if std_modes { vec![Entry::Custom, Entry::Global, Entry::Semiglobal, Entry::Local] } else { vec![Entry::Custom] };
             let sp = sp.clone();
-            entries.into_iter().map(move |entry| Case { spec: sp.clone(), with_match_scores: true, k, w, history: Vec::new(), call: BCall { entry, x: B(x.clone()), y: B(y.clone()) } })
+            entries.into_iter().map(move |entry| Case { spec: sp.clone(), with_match_scores: true, k, w, history: Vec::new(), call: BCall { entry, x: B(x.clone()), y: B(y.clone()), shared: None } })
         })
     }))
 }
@@ -505,13 +552,13 @@ pub mod large {
     pub fn check(c: &Case) -> R {
         ensure!(c.m >= 1 && c.n >= 1 && c.m <= 1100 && c.n <= 1100 && c.k >= 1, "harness: case outside the large-scale domain");
         let (x, y) = c01::large::gen_pair_junk(c.seed, c.m, c.n, c.content, c.spec.sigma, c.edits, c.junk);
-        let call = BCall { entry: c.entry.clone(), x: B(x), y: B(y) };
+        let call = BCall { entry: c.entry.clone(), x: B(x), y: B(y), shared: None };
         let mk = || Aligner::with_scoring(c.spec.scoring(c.with_match_scores), c.k, c.w);
         let mut fresh = mk();
         let r = check_call("fresh aligner (large):", &mut fresh, &call, &c.spec, c.k, c.w)?;
         if let Some(e) = &c.earlier {
             let (x0, y0) = c01::large::gen_pair_junk(c.seed ^ 0x5eed, c.m, c.n, c.content, c.spec.sigma, c.edits, [c.junk[1], c.junk[0], c.junk[3], c.junk[2]]);
-            let first = BCall { entry: e.clone(), x: B(x0), y: B(y0) };
+            let first = BCall { entry: e.clone(), x: B(x0), y: B(y0), shared: None };
             let mut used = mk();
             check_call("earlier call of the same shape (large):", &mut used, &first, &c.spec, c.k, c.w)?;
             // the observed call on the used aligner is validated in full (not only compared): stale traceback
@@ -610,8 +657,8 @@ pub mod reuse {
         ensure!(c.m >= 1 && c.n >= 1 && c.m <= 600 && c.n <= 600, "harness: case outside the reuse domain");
         let (xa, ya) = c01::large::gen_pair_junk(c.seed ^ 0x5eed, c.m, c.n, 0, c.spec.sigma, c.edits, [0; 4]);
         let (xb, yb) = c01::large::gen_pair_junk(c.seed, c.m, c.n, 0, c.spec.sigma, c.edits, c.junk);
-        let first = BCall { entry: c.first.clone(), x: B(xa), y: B(ya) };
-        let second = BCall { entry: c.second.clone(), x: B(xb), y: B(yb) };
+        let first = BCall { entry: c.first.clone(), x: B(xa), y: B(ya), shared: None };
+        let second = BCall { entry: c.second.clone(), x: B(xb), y: B(yb), shared: None };
         let mk = || Aligner::with_scoring(c.spec.scoring(true), c.k, c.w);
         let mut used = mk();
         set_clips(&mut used, c.first_clips);
